@@ -35,8 +35,51 @@ def load_mutants(prop: str):
     return list(m.MUTANTS)
 
 
+def _analyse(prop: str, root: Path, evdir: Path):
+    """Run one check in-process on `root`; returns (rc, set of violation keys, output)."""
+    from . import report
+
+    os.environ["VERIF_EVIDENCE_DIR"] = str(evdir)
+    report.EVIDENCE_DIR = evdir
+    buf = io.StringIO()
+    rc = 2
+    keys: set[str] = set()
+    with contextlib.redirect_stdout(buf):
+        try:
+            repo = Repo.load(root)
+            ctx = report.Ctx(prop, "quick", repo)
+            ctx.quiet = True
+            mod = importlib.import_module(f"sa.checks.{prop.lower()}")
+            mod.run(ctx)
+            keys = {i.key for i in ctx.instances if i.verdict == "violation"}
+            rc = ctx.finish()
+        except AnalysisError as e:
+            print(f"ANALYSIS-ERROR {e}")
+            rc = 2
+        except Exception:
+            print("ANALYSIS-ERROR internal\n" + traceback.format_exc())
+            rc = 2
+    return rc, keys, buf.getvalue()
+
+
+_BASE: dict[str, tuple] = {}
+
+
+def baseline(prop: str, src_root: str):
+    """Violation keys of the unmodified tree (pending known defects): variants are judged on the
+    keys they ADD, so a defect that is still open does not mask or fake a variant's verdict."""
+    if prop not in _BASE:
+        tmp = Path(tempfile.mkdtemp(prefix=f"sa-base-{prop}-"))
+        try:
+            _BASE[prop] = _analyse(prop, Path(src_root), tmp / "evidence")
+        finally:
+            shutil.rmtree(tmp, ignore_errors=True)
+    return _BASE[prop]
+
+
 def _run_variant(args):
     prop, name, expect, edits, src_root = args
+    base_rc, base_keys, _ = baseline(prop, src_root)
     tmp = Path(tempfile.mkdtemp(prefix=f"sa-{prop}-"))
     try:
         shutil.copytree(Path(src_root) / "abtem", tmp / "abtem", ignore=shutil.ignore_patterns("__pycache__", "*.pyc"))
@@ -57,34 +100,18 @@ def _run_variant(args):
                 _ast.parse((tmp / rel).read_text())
         except SyntaxError as e:
             return (prop, name, expect, "BROKEN-VARIANT", str(e))
-        os.environ["VERIF_EVIDENCE_DIR"] = str(tmp / "evidence")
-        from . import report
-
-        report.EVIDENCE_DIR = tmp / "evidence"
-        buf = io.StringIO()
-        rc = 2
-        with contextlib.redirect_stdout(buf):
-            try:
-                repo = Repo.load(tmp)
-                ctx = report.Ctx(prop, "quick", repo)
-                ctx.quiet = True
-                mod = importlib.import_module(f"sa.checks.{prop.lower()}")
-                mod.run(ctx)
-                rc = ctx.finish()
-            except AnalysisError as e:
-                print(f"ANALYSIS-ERROR {e}")
-                rc = 2
-            except Exception:
-                print("ANALYSIS-ERROR internal\n" + traceback.format_exc())
-                rc = 2
-        out = buf.getvalue()
-        viol = [l for l in out.splitlines() if "[VIOLATION" in l]
-        if expect == "fire":
-            verdict = "PASS" if rc == 1 else "FAIL"
+        rc, keys, out = _analyse(prop, tmp, tmp / "evidence")
+        new = sorted(keys - base_keys)
+        if rc == 2:
+            verdict = "FAIL"
+            detail = ([l for l in out.splitlines() if "ANALYSIS-ERROR" in l] or [""])[0][:300]
+        elif expect == "fire":
+            verdict = "PASS" if new else "FAIL"
+            viol = [l for l in out.splitlines() if "[VIOLATION" in l and any(k.split(":")[2] in l for k in new)]
+            detail = (viol[0].strip()[:200] if viol else (new[0] if new else "no new violation"))
         else:
-            verdict = "PASS" if rc == 0 else "FAIL"
-        detail = (viol[0].strip()[:200] if viol else "") if rc == 1 else (
-            [l for l in out.splitlines() if "ANALYSIS-ERROR" in l] or [""])[0][:300]
+            verdict = "PASS" if not new else "FAIL"
+            detail = "; ".join(new)[:300]
         return (prop, name, expect, verdict, f"rc={rc} {detail}")
     finally:
         shutil.rmtree(tmp, ignore_errors=True)
